@@ -2,7 +2,11 @@ package participle
 
 import (
 	"fmt"
+	"hash/fnv"
+	"reflect"
 	"strings"
+	"unicode"
+	"unicode/utf8"
 )
 
 // String returns the EBNF for the grammar.
@@ -10,6 +14,19 @@ import (
 // Productions are always upper cased. Lexer tokens are always lower case.
 func (p *Parser[G]) String() string {
 	return ebnf(p.typeNodes[p.rootType])
+}
+
+// ebnfName returns the production name for a type: its name with an upper-case first letter, or,
+// for unnamed (anonymous struct) types, a stable name derived from the type's definition.
+func ebnfName(t reflect.Type) string {
+	name := t.Name()
+	if name == "" {
+		h := fnv.New32a()
+		_, _ = h.Write([]byte(t.String()))
+		return fmt.Sprintf("Anon%08x", h.Sum32())
+	}
+	first, size := utf8.DecodeRuneInString(name)
+	return string(unicode.ToUpper(first)) + name[size:]
 }
 
 type ebnfp struct {
@@ -52,7 +69,7 @@ func buildEBNF(root bool, n node, seen map[node]bool, p *ebnfp, outp *[]*ebnfp) 
 		}
 
 	case *union:
-		name := strings.ToUpper(n.typ.Name()[:1]) + n.typ.Name()[1:]
+		name := ebnfName(n.typ)
 		if p != nil {
 			p.out += name
 		}
@@ -70,11 +87,11 @@ func buildEBNF(root bool, n node, seen map[node]bool, p *ebnfp, outp *[]*ebnfp) 
 		}
 
 	case *custom:
-		name := strings.ToUpper(n.typ.Name()[:1]) + n.typ.Name()[1:]
+		name := ebnfName(n.typ)
 		p.out += name
 
 	case *strct:
-		name := strings.ToUpper(n.typ.Name()[:1]) + n.typ.Name()[1:]
+		name := ebnfName(n.typ)
 		if p != nil {
 			p.out += name
 		}
